@@ -81,8 +81,33 @@ func main() {
 	devnull, _ := os.OpenFile(os.DevNull, os.O_WRONLY, 0)
 	os.Stdout = devnull
 	log.SetOutput(io.Discard)
+	// every formatter is installed: a run appends one marker line to the file it
+	// is given, so that a file formatted zero or two times shows in the output tree
 	verifsim.ExecHook = func(name string, args []string, dir string) ([]byte, error) {
-		return nil, &exec.Error{Name: name, Err: exec.ErrNotFound} // no formatter installed
+		if len(args) == 0 {
+			return nil, &exec.Error{Name: name, Err: exec.ErrNotFound}
+		}
+		last := args[len(args)-1]
+		isRun := false
+		switch name {
+		case "goimports":
+			isRun = len(args) == 2 && args[0] == "-w"
+		case "dart":
+			isRun = len(args) == 2 && args[0] == "format" && last != "--help"
+		case "npx":
+			isRun = len(args) == 3 && args[1] == "--write"
+		case "pg_format":
+			isRun = len(args) == 2 && args[0] == "-i"
+		}
+		if isRun {
+			f, err := os.OpenFile(last, os.O_APPEND|os.O_WRONLY, 0)
+			if err != nil {
+				return nil, err
+			}
+			fmt.Fprintf(f, "\n// formatted by %s\n", name)
+			f.Close()
+		}
+		return nil, nil
 	}
 	rep := report{FirstBad: -1}
 	seen := map[string]bool{}
